@@ -89,12 +89,13 @@ struct EncRun {
   }
 
   // run the encoder over the recipe's signal with the given schedule; returns packets
-  struct EncOut { std::vector<Pkt> hdr, audio; long bs0 = 0, bs1 = 0; int nwrites = 0; int rejected = 0; double max_rate = 0, min_rate = 0, reservoir = 0; int managed = 0; };
+  struct EncOut { std::vector<Pkt> hdr, audio; long bs0 = 0, bs1 = 0; int nwrites = 0; int rejected = 0; double max_rate = 0, min_rate = 0, reservoir = 0; int managed = 0; long reservoir_raw = 0; };
   void encode(const Recipe &sigr, const EncSetup &es, int64_t N, const Sched &s, EncOut &out, struct ovectl_ratemanage2_arg *rm, bool stub, uint64_t stubseed, int stubpat) {
     vorbis_info vi; int ret = do_setup(vi, es, rm);
     if (ret) { vorbis_info_clear(&vi); out.rejected = ret; g_stats.inc("enc.setup_rejected"); return; }   // the property quantifies over configurations that set up successfully
     { codec_setup_info *ci = (codec_setup_info *)vi.codec_setup;   // the limits in force (OV_ECTL_RATEMANAGE2_GET reports them truncated to whole kbit/s)
-      out.max_rate = (double)ci->bi.max_rate; out.min_rate = (double)ci->bi.min_rate; out.reservoir = (double)ci->bi.reservoir_bits; out.managed = ci->bi.reservoir_bits > 0; }
+      out.max_rate = (double)ci->bi.max_rate; out.min_rate = (double)ci->bi.min_rate; out.reservoir = (double)std::max<long>(0, ci->bi.reservoir_bits); out.managed = ci->bi.max_rate > 0 || ci->bi.min_rate > 0;
+      out.reservoir_raw = ci->bi.reservoir_bits; }
     vorbis_comment vc; vorbis_comment_init(&vc); vorbis_comment_add_tag(&vc, "ENCODER", "encsim");
     vorbis_dsp_state vd; vorbis_block vb; vorbis_analysis_init(&vd, &vi); vorbis_block_init(&vd, &vb);
     ogg_packet h0, h1, h2; vorbis_analysis_headerout(&vd, &vc, &h0, &h1, &h2); out.hdr = {pkt_from_op(h0), pkt_from_op(h1), pkt_from_op(h2)};
@@ -185,7 +186,7 @@ struct EncRun {
   // ---------------------------------------------------------------- C14
   void run_rate() {
     const Rec *er = plan.first("enc"); if (!er) return;
-    EncSetup es = setup_from(*er); es.how = 5; Recipe sigr; sigr.ch = std::min(es.ch, 8); sigr.rate = es.rate; sigr.sig = (int)er->i("sig", 0); sigr.seed = er->u("seed", 1);
+    EncSetup es = setup_from(*er); if (es.how != 2 && es.how != 3) es.how = 5; Recipe sigr; sigr.ch = std::min(es.ch, 8); sigr.rate = es.rate; sigr.sig = (int)er->i("sig", 0); sigr.seed = er->u("seed", 1);
     int64_t N = er->i("n", 100000); bool stub = er->i("stub", 0) != 0; int pat = (int)er->i("pat", 0);
     Sched s; s.part = 1; s.pk = 2048;
     struct ovectl_ratemanage2_arg rm; memset(&rm, 0, sizeof rm);
@@ -196,7 +197,12 @@ struct EncRun {
     // cross-check with the control interface (it reports whole kbit/s)
     if (rm.management_active) { check(rm.bitrate_limit_max_kbps == (long)(maxr / 1000) || maxr == 0, "ctl", "ratemanage2-get-disagrees", fmt("GET max %ld kbps, in force %.0f bps", rm.bitrate_limit_max_kbps, maxr)); }
     h.i64(rm.bitrate_limit_max_kbps); h.i64(rm.bitrate_limit_min_kbps); h.i64(rm.bitrate_limit_reservoir_bits);
+    // a hard limit handed to the set-up call and accepted must be in force afterwards (kbit/s granularity of the interfaces)
+    if (es.how == 2 || es.how == 3) { long rq_max = es.how == 3 ? es.nom : es.mx, rq_min = es.how == 3 ? es.nom : es.mn;
+      if (rq_max > 0) check(maxr > 0 && fabs(maxr - (double)rq_max) < 1000.5, "setup", "hard-maximum-not-in-force", fmt("requested max %ld bit/s, in force %.0f", rq_max, maxr));
+      if (rq_min > 0) check(minr > 0 && fabs(minr - (double)rq_min) < 1000.5, "setup", "hard-minimum-not-in-force", fmt("requested min %ld bit/s, in force %.0f", rq_min, minr)); }
     if (!eo.managed || (maxr == 0 && minr == 0)) { g_stats.inc("rate.no_hard_limit_configured"); return; }
+    if (eo.reservoir_raw <= 0) g_stats.inc("probe.rate_zero_or_negative_reservoir");
     // token bucket over every contiguous window, evaluated online: S_k = sum(bits - limit*duration); window (i,j] exceeds by S_j - S_i
     double Smax = 0, Smin = 0, minSmax = 0, maxSmin = 0, units = 0; double worst_over = -1e18, worst_under = 1e18;
     std::vector<double> U; U.push_back(0);
@@ -246,7 +252,10 @@ struct EncRun {
       int multi = (int)er->i("multi", 0);
       if (multi == 1) { vorbis_block_clear(&vb); vorbis_dsp_clear(&vd); vorbis_analysis_init(&vd, &vi); vorbis_block_init(&vd, &vb); g_stats.inc("probe.encoder_reinit_same_info"); }
       if (multi == 2) { vorbis_dsp_state vd2; vorbis_block vb2; vorbis_analysis_init(&vd2, &vi); vorbis_block_init(&vd2, &vb2); vorbis_block_clear(&vb2); vorbis_dsp_clear(&vd2); g_stats.inc("probe.two_encoders_one_info"); }
-      if (at >= 2) { vorbis_comment_init(&vc); have_vc = true; vorbis_comment_add_tag(&vc, "A", "b"); ogg_packet a, b, c; vorbis_analysis_headerout(&vd, &vc, &a, &b, &c); h.i64(a.bytes + b.bytes + c.bytes); }
+      if (at >= 2) { vorbis_comment_init(&vc); have_vc = true; vorbis_comment_add_tag(&vc, "A", "b"); ogg_packet a, b, c;
+        int nh = 1 + (int)er->i("hdrs", 0);   // headerout may be called again on the same state (each call hands out fresh packets)
+        for (int k = 0; k < nh; k++) { int hr = vorbis_analysis_headerout(&vd, &vc, &a, &b, &c); h.i64(hr); h.bytes(a.packet, (size_t)a.bytes); h.bytes(b.packet, (size_t)b.bytes); h.bytes(c.packet, (size_t)c.bytes); }
+        if (nh > 1) g_stats.inc("probe.headerout_repeated"); }
       if (at >= 3) {
         Signal sig(sigr); int64_t done = 0; int64_t stop = at == 3 ? N / 2 : N;
         while (done < stop) { int k = (int)std::min<int64_t>(1024, stop - done); float **buf = vorbis_analysis_buffer(&vd, k); for (int c = 0; c < es.ch; c++) for (int i = 0; i < k; i++) buf[c][i] = sig.at(c % sigr.ch, done + i); vorbis_analysis_wrote(&vd, k); done += k;
@@ -314,6 +323,8 @@ struct EncGen {
       e.set("max", lim == 1 ? -1 : mx).set("min", lim == 0 ? -1 : mn);
       if (lim != 3 && g.chance(0.3)) e.set("nom", -1);
       double u = g.unit(); e.set("resv", u < 0.2 ? (int64_t)g.range(0, 4000) : u < 0.6 ? (int64_t)g.range(4000, 60000) : (int64_t)g.range(60000, 2 * nom)).setf("bias", g.chance(0.2) ? (g.chance(0.5) ? 0.0 : 1.0) : g.unit());
+      if (g.chance(0.12)) { static const int64_t tiny[] = {0, 1, 8, 64, 128, 512, 1024}; e.set("resv", tiny[g.below(7)]); }
+      if (g.chance(0.25)) { e.set("how", lim == 3 ? 3 : 2); e.erase("resv"); e.erase("bias"); if (lim == 3 && e.i("nom") <= 0) e.set("nom", nom); }   // limits handed straight to vorbis_encode_init, default reservoir
       bool stub = g.chance(0.5); e.set("stub", stub ? 1 : 0);
       if (stub) { e.set("pat", (int64_t)g.below(5)).setu("stubseed", g.below(100000)).set("sig", g.chance(0.5) ? 2 : 3).set("n", (int64_t)g.range(rate * 2, rate * (thorough ? 40 : 12))); }
       else e.set("sig", (int64_t)(g.chance(0.4) ? 3 : g.below(6))).set("n", (int64_t)g.range(rate * 2, rate * (thorough ? 8 : 4)) / (ch > 2 ? 3 : 1));
@@ -322,6 +333,7 @@ struct EncGen {
       if (g.chance(0.2)) { double u = g.unit(); if (u < 0.25) e.set("rate", g.chance(0.5) ? 0 : -44100); else if (u < 0.5) e.set("ch", g.chance(0.5) ? 0 : 256 + (int64_t)g.below(1000)); else if (u < 0.75) e.setf("q", g.chance(0.5) ? -5.0 : 7.5); else e.set("nom", g.chance(0.5) ? 1 : 2000000000); }
       int ch = (int)e.i("ch");
       if (g.chance(0.25)) e.set("multi", (int64_t)g.range(1, 2));
+      if (g.chance(0.2)) e.set("hdrs", (int64_t)g.range(1, 2));
       e.set("abandon", (int64_t)g.below(5)).set("twice", (int64_t)g.below(2)).set("n", (int64_t)(ch > 8 ? g.range(0, 3000) : g.range(0, 20000))).set("poison", (int64_t)g.below(5)).setu("pseed", g.below(100000));
     }
     return p;
